@@ -107,6 +107,9 @@ class ResolvePortRefs(ElabPass):
 
             # And recursively follow its connected ports
             for connected_port in pref._connected_ports:
+                if connected_port.inst._parent_module is not module:
+                    # Not one of this module's instances, e.g. the discarded template of an `n * inst` array
+                    continue
                 follow(connected_port, group)
 
         # Collect groups of connected `PortRef`s
